@@ -172,7 +172,7 @@ def f(self):
         if next is None:
             raise UnitsParseError('x')
         if self.isnumber(next):
-            if '.' in next:
+            if '.' in next or 'e' in next or 'E' in next:
                 result = ('number', float(next))
             else:
                 result = ('number', int(next))
@@ -431,11 +431,13 @@ def run(chk, repo, tier):
             import re._parser as rp
         except ImportError:      # pragma: no cover
             import sre_parse as rp
-        ok = repr(rp.parse(pat)) == repr(rp.parse(r'-?[.\d]+|[a-zA-Z]+|.'))
+        ok = repr(rp.parse(pat)) == repr(rp.parse(
+            r'-?[.\d]+(?:[eE][-+]?\d+)?|[a-zA-Z]+|.'))
     chk.ob('R10.5', ok, PARSER, repo.cls(PARSER, 'UnitsParser'),
            key='tokenizer-pattern', qualname='UnitsParser',
-           what='tokens are: optionally signed number, run of letters, any '
-                'other single character', found=repr(pat))
+           what='tokens are: optionally signed number with optional e/E '
+                'exponent, run of letters, any other single character',
+           found=repr(pat))
     # units_db used by the evaluator is the one the tables are registered in
     ok = any(isinstance(s, ast.ImportFrom) and s.module == 'db'
              and s.level == 1 and any(a.name == 'units_db' for a in s.names)
